@@ -1,21 +1,38 @@
 /*
  * tsan_stress -- free-running multi-threaded stress of iv_wait and iv_signal on the REAL kernel (real fork,
- * real signals), built with -fsanitize=thread for the C14 check.  NTHR loop threads; every thread spawns
- * short-lived children through iv_wait_interest_register_spawn, unregisters some interests from their death
- * callback and others from a timeout that races with the child's death (the reaper is whichever thread owns
- * the chosen SIGCHLD interest, so interests of one thread are marked dead by another), and has iv_signal
- * interests (process-wide and this-thread) for SIGUSR1 that the threads send to each other.  The program ends
- * by itself after ROUNDS rounds per thread; exit status 0 unless a watchdog fires.  ThreadSanitizer reports go
- * to stderr and make the exit status 66.
+ * real signals), built with -fsanitize=thread for the C14 check.  NTHR loop threads; every thread runs jobs.
+ * A job is one child process and one wait interest:
+ *   - started through iv_wait_interest_register_spawn, or (M8) forked by the job itself and registered with
+ *     plain iv_wait_interest_register while the other threads reap (the child is held back on a pipe until
+ *     the interest is in the tree, so its death cannot be reaped as a stranger);
+ *   - (M7) most children go through several state changes: the owner sends SIGSTOP and a little later SIGCONT
+ *     (both through iv_wait_interest_kill) before the child exits, so that the reaper -- whichever thread
+ *     owns the chosen SIGCHLD interest -- queues a second and third status for the interest while its owner
+ *     may be running the completion of the first one; the status handler does not unregister on
+ *     stopped / continued;
+ *   - ended either from the death callback (mode 0) or (M9) from a timeout close to the child's death that
+ *     calls iv_wait_interest_kill(SIGTERM) and unregisters while the reaper in another thread may be setting
+ *     the DEAD flag (mode 1).
+ * Every signal to a child goes through iv_wait_interest_kill on a registered interest (DEAD flag under
+ * iv_wait_lock), never through a raw kill(): the pid of a reaped child may already be somebody else's.
+ * A job that ends first kills its child (SIGKILL also ends a stopped child); children die with their parent
+ * (PR_SET_PDEATHSIG), so nothing is left behind even when the watchdog fires.
+ * The threads also have iv_signal interests (process-wide and this-thread) for SIGUSR1 that they send to each
+ * other.  The program ends by itself after ROUNDS rounds per thread; exit status 0 unless a watchdog fires.
+ * ThreadSanitizer reports go to stderr and make the exit status 66.  Nothing here waits for a time to be
+ * "long enough": every timeout only decides WHICH code runs, the program is correct for every timing.
  *
  * usage: tsan_stress <seed> [nthr] [rounds]
+ * last line of stdout: DONE <counter>=<n> ...   (what was executed, summed over the threads)
  */
 #define _GNU_SOURCE
+#include <errno.h>
 #include <pthread.h>
 #include <signal.h>
 #include <stdio.h>
 #include <stdlib.h>
 #include <string.h>
+#include <sys/prctl.h>
 #include <sys/wait.h>
 #include <unistd.h>
 #include <iv.h>
@@ -29,10 +46,19 @@ struct thr;
 struct job {
 	struct thr		*t;
 	struct iv_wait_interest	wi;
-	struct iv_timer		to;
+	struct iv_timer		to;		/* end of the job (mode 1) / safety net (mode 0) */
+	struct iv_timer		sg;		/* stop / continue script */
 	int			live;		/* interest registered */
 	int			mode;		/* 0: unregister in the death callback; 1: from the timeout */
+	int			sgstep;		/* 0: SIGSTOP due, 1: SIGCONT due */
+	long			sg_us[2];
+	int			nstatus;	/* statuses delivered for this child */
 };
+
+enum { C_SPAWN, C_PLAIN, C_UNREG, C_KILL, C_KILL_ESRCH, C_STOP, C_CONT, C_STATUS, C_STOPPED, C_CONTINUED, C_DEAD,
+       C_MULTI, C_TIMEOUT_END, C_SIG, C_NCOUNT };
+static const char *cname[C_NCOUNT] = { "register_spawn", "register_plain", "unregister", "kill", "kill_esrch", "stop_sent",
+	"cont_sent", "statuses", "stopped", "continued", "dead", "multi_status_jobs", "timeout_ends", "signals" };
 
 struct thr {
 	int			idx;
@@ -44,7 +70,7 @@ struct thr {
 	struct iv_signal	sig_all;	/* process-wide, shared */
 	struct iv_signal	sig_me;		/* this-thread */
 	struct iv_timer		tick;
-	int			sigcount;
+	long			cnt[C_NCOUNT];
 };
 
 static struct thr thr[MAXTHR];
@@ -54,13 +80,39 @@ static pthread_barrier_t start_barrier;
 static int finished[MAXTHR];		/* accessed with __atomic builtins */
 static int nfinished;
 
-static void child_fn(void *cookie)
+static void child_body(long us)
 {
-	long us = (long)cookie;
-
 	if (us > 0)
 		usleep(us);
 	_exit(7);
+}
+
+static void child_fn(void *cookie)
+{
+	prctl(PR_SET_PDEATHSIG, SIGKILL);
+	child_body((long)cookie);
+}
+
+static void timer_in(struct iv_timer *tm, long us)
+{
+	iv_validate_now();
+	tm->expires = iv_now;
+	tm->expires.tv_nsec += us * 1000L;
+	while (tm->expires.tv_nsec >= 1000000000L) {
+		tm->expires.tv_nsec -= 1000000000L;
+		tm->expires.tv_sec++;
+	}
+	iv_timer_register(tm);
+}
+
+/* the only way a signal is sent to a child */
+static void job_kill(struct job *j, int sig)
+{
+	int ret = iv_wait_interest_kill(&j->wi, sig);
+
+	j->t->cnt[C_KILL]++;
+	if (ret == -ESRCH)
+		j->t->cnt[C_KILL_ESRCH]++;
 }
 
 static void start_job(struct job *j);
@@ -71,22 +123,40 @@ static void job_finish(struct job *j)
 
 	if (iv_timer_registered(&j->to))
 		iv_timer_unregister(&j->to);
+	if (iv_timer_registered(&j->sg))
+		iv_timer_unregister(&j->sg);
 	if (j->live) {
+		/* the child may be alive, stopped, dying in another thread's reaper right now, or long gone */
+		job_kill(j, SIGKILL);
 		iv_wait_interest_unregister(&j->wi);
+		t->cnt[C_UNREG]++;
 		j->live = 0;
 	}
+	if (j->nstatus > 1)
+		t->cnt[C_MULTI]++;
 	t->done++;
 	if (t->done + 1 < t->rounds * 2)
 		start_job(j);
 }
 
-static void job_died(void *cookie, int status, const struct rusage *ru)
+static void job_status(void *cookie, int status, const struct rusage *ru)
 {
 	struct job *j = cookie;
 
 	(void)ru;
+	j->nstatus++;
+	j->t->cnt[C_STATUS]++;
+	if (WIFSTOPPED(status)) {
+		j->t->cnt[C_STOPPED]++;
+		return;
+	}
+	if (WIFCONTINUED(status)) {
+		j->t->cnt[C_CONTINUED]++;
+		return;
+	}
 	if (!WIFEXITED(status) && !WIFSIGNALED(status))
 		return;
+	j->t->cnt[C_DEAD]++;
 	if (j->mode == 0)
 		job_finish(j);
 }
@@ -95,43 +165,117 @@ static void job_timeout(void *cookie)
 {
 	struct job *j = cookie;
 
-	/* unregister while the child may be dying right now in another thread's reaper */
+	/* kill and unregister while the child may be dying right now in another thread's reaper */
+	j->t->cnt[C_TIMEOUT_END]++;
+	if (j->mode == 1)
+		job_kill(j, SIGTERM);
 	job_finish(j);
+}
+
+static void job_sigstep(void *cookie)
+{
+	struct job *j = cookie;
+
+	if (j->sgstep == 0) {
+		job_kill(j, SIGSTOP);
+		j->t->cnt[C_STOP]++;
+		j->sgstep = 1;
+		timer_in(&j->sg, j->sg_us[1]);
+	} else {
+		job_kill(j, SIGCONT);
+		j->t->cnt[C_CONT]++;
+	}
+}
+
+static void job_lost(struct job *j)
+{
+	/* fork / pipe failed: the round counts, the slot is tried again */
+	j->t->done++;
+	if (j->t->done + 1 < j->t->rounds * 2)
+		timer_in(&j->to, 1000);
+}
+
+static void job_retry(void *cookie)
+{
+	start_job(cookie);
 }
 
 static void start_job(struct job *j)
 {
 	struct thr *t = j->t;
-	long child_us = rand_r(&t->seed) % 3000;
+	long child_us = 3000 + rand_r(&t->seed) % 6000;
+	int plain = rand_r(&t->seed) % 2;
+	int stopcont = rand_r(&t->seed) % 4 != 0;
 
 	j->mode = rand_r(&t->seed) % 2;
+	j->nstatus = 0;
+	j->live = 0;
 	IV_WAIT_INTEREST_INIT(&j->wi);
 	j->wi.cookie = j;
-	j->wi.handler = job_died;
-	if (iv_wait_interest_register_spawn(&j->wi, child_fn, (void *)child_us) < 0) {
-		t->done++;
-		return;
-	}
-	j->live = 1;
+	j->wi.handler = job_status;
 	IV_TIMER_INIT(&j->to);
 	j->to.cookie = j;
-	j->to.handler = job_timeout;
-	iv_validate_now();
-	j->to.expires = iv_now;
-	/* mode 1: a timeout close to the child's life time; mode 0: a generous safety timeout */
-	j->to.expires.tv_nsec += (j->mode ? (child_us + rand_r(&t->seed) % 400) * 1000L : 300000000L);
-	while (j->to.expires.tv_nsec >= 1000000000L) {
-		j->to.expires.tv_nsec -= 1000000000L;
-		j->to.expires.tv_sec++;
+	j->to.handler = job_retry;
+	IV_TIMER_INIT(&j->sg);
+	j->sg.cookie = j;
+	j->sg.handler = job_sigstep;
+
+	if (!plain) {
+		if (iv_wait_interest_register_spawn(&j->wi, child_fn, (void *)child_us) < 0) {
+			job_lost(j);
+			return;
+		}
+		t->cnt[C_SPAWN]++;
+	} else {
+		int gate[2];
+		pid_t pid;
+		char c = 'g';
+
+		if (pipe(gate) < 0) {
+			job_lost(j);
+			return;
+		}
+		pid = fork();
+		if (pid < 0) {
+			close(gate[0]);
+			close(gate[1]);
+			job_lost(j);
+			return;
+		}
+		if (pid == 0) {
+			/* held back until the interest is in the tree: a death before that would be reaped as a
+			 * stranger's and never reported */
+			prctl(PR_SET_PDEATHSIG, SIGKILL);
+			close(gate[1]);
+			while (read(gate[0], &c, 1) < 0 && errno == EINTR)
+				;
+			child_body(child_us);
+		}
+		j->wi.pid = pid;
+		iv_wait_interest_register(&j->wi);
+		t->cnt[C_PLAIN]++;
+		if (write(gate[1], &c, 1) < 0)
+			;
+		close(gate[0]);
+		close(gate[1]);
 	}
-	iv_timer_register(&j->to);
+	j->live = 1;
+	j->to.handler = job_timeout;
+	/* mode 1: a timeout close to the child's life time; mode 0: a generous safety net */
+	timer_in(&j->to, j->mode ? child_us + rand_r(&t->seed) % 400 : 300000L);
+	if (stopcont) {
+		j->sgstep = 0;
+		j->sg_us[0] = 100 + rand_r(&t->seed) % 2000;
+		j->sg_us[1] = 1000 + rand_r(&t->seed) % 3000;
+		timer_in(&j->sg, j->sg_us[0]);
+	}
 }
 
 static void got_sig(void *cookie)
 {
 	struct thr *t = cookie;
 
-	t->sigcount++;
+	t->cnt[C_SIG]++;
 }
 
 static void tick(void *cookie)
@@ -158,14 +302,7 @@ static void tick(void *cookie)
 		if (rand_r(&t->seed) % 3 == 0)
 			kill(getpid(), SIGUSR1);
 	}
-	iv_validate_now();
-	t->tick.expires = iv_now;
-	t->tick.expires.tv_nsec += 2000000;
-	if (t->tick.expires.tv_nsec >= 1000000000L) {
-		t->tick.expires.tv_nsec -= 1000000000L;
-		t->tick.expires.tv_sec++;
-	}
-	iv_timer_register(&t->tick);
+	timer_in(&t->tick, 2000);
 }
 
 static void *thread_main(void *arg)
@@ -191,9 +328,7 @@ static void *thread_main(void *arg)
 	IV_TIMER_INIT(&t->tick);
 	t->tick.cookie = t;
 	t->tick.handler = tick;
-	iv_validate_now();
-	t->tick.expires = iv_now;
-	iv_timer_register(&t->tick);
+	timer_in(&t->tick, 0);
 	for (i = 0; i < 2; i++) {
 		t->job[i].t = t;
 		start_job(&t->job[i]);
@@ -206,8 +341,7 @@ static void *thread_main(void *arg)
 int main(int argc, char **argv)
 {
 	unsigned seed = argc > 1 ? atoi(argv[1]) : 1;
-	sigset_t set;
-	int i;
+	int i, c;
 
 	if (argc > 2)
 		nthr = atoi(argv[2]);
@@ -215,13 +349,12 @@ int main(int argc, char **argv)
 		rounds = atoi(argv[3]);
 	if (nthr < 2 || nthr > MAXTHR)
 		nthr = 3;
-	alarm(25);
+	alarm(40);
 
 	/* the first iv_init happens before any other thread uses the library (documented precondition) */
 	iv_init();
 	/* SIGUSR1 must not kill the process before the interests exist */
 	signal(SIGUSR1, SIG_IGN);
-	sigemptyset(&set);
 	for (i = 0; i < nthr; i++) {
 		thr[i].idx = i;
 		thr[i].seed = seed * 977 + i * 131 + 1;
@@ -238,9 +371,17 @@ int main(int argc, char **argv)
 	thread_main(&thr[0]);
 	for (i = 1; i < nthr; i++)
 		pthread_join(thr[i].tid, NULL);
-	/* reap stragglers */
+	/* reap stragglers (children killed by the last job_finish calls) */
 	while (waitpid(-1, NULL, WNOHANG) > 0)
 		;
-	printf("DONE\n");
+	printf("DONE");
+	for (c = 0; c < C_NCOUNT; c++) {
+		long sum = 0;
+
+		for (i = 0; i < nthr; i++)
+			sum += thr[i].cnt[c];
+		printf(" %s=%ld", cname[c], sum);
+	}
+	printf("\n");
 	return 0;
 }
